@@ -664,6 +664,239 @@ class WaitNoEcho(Contract):
         return out
 
 
+# ---- PopenSpawn.read_nonblocking (reader thread -> queue -> here) ----------------------------------------------
+class QueueGetNowait(Contract):
+    """queue.Queue.get_nowait() on the read queue: FIFO; a chunk of what the reader thread has queued, the None
+    sentinel once everything before it was taken, or Empty if nothing is queued right now.
+    Kos = bytes queued and not yet taken, peer != 0 = the sentinel has been queued behind them."""
+    params = ['self']
+
+    def outcomes(self, v):
+        return [Ret(T.Bytes, 'chunk'), Ret(T.NoneT, 'sentinel'), Raises('Empty')]
+
+    def effects(self, v):
+        if v.label == 'chunk':
+            v.chunk, v.cons = kernel_read(v, 1024, 'data')
+        elif v.label == 'sentinel':
+            _, v.cons = kernel_read(v, 1024, 'eof')
+        else:
+            c = env_step(v)
+            v.cons = And(c, eq(v.g['Kos'], ''), eq(v.g['peer'], 0))
+            v.g['empty_seen'] = True
+
+    def ensures(self, v):
+        out = [('queue', v.cons)]
+        if v.label == 'chunk':
+            out.append(('chunk', eq(v.result, v.chunk)))
+        return out
+
+
+def popen_read_shape(b):
+    sp, kind = read_shape(b, POPEN)
+    if hasattr(b, 'ctx'):
+        h = b.ctx.heap[sp.oid]
+        h.fields['_buf'] = b.str('_buf', kind)
+        h.fields['_read_reached_eof'] = b.bool('_read_reached_eof')
+        h.fields['_read_queue'] = b.obj('queue', 'iface:queue', sealed=True)
+        h.fields['timeout'] = b.opt('self.timeout', lambda: b.real('self.timeout'))
+        h.fields['flag_eof'] = b.bool('flag_eof')
+    b.ghost('empty_seen', False)
+    return sp, kind
+
+
+def popen_inv(sp, g):
+    """once the sentinel has been read nothing is left anywhere: queue drained, reader gone, carry-over empty"""
+    return Implies(sp._read_reached_eof, And(drained_and_gone(g), eq(sp._buf, '')))
+
+
+class PopenReadLoop(LoopSpec):
+    def vars(self, v):
+        k = 'b' if v.old.self.encoding is None else 's'
+        d = {'buf': TStr(k), 'incoming': TOpt(T.Bytes)}
+        if v.l.has('polled'):
+            d['polled'] = T.Bool
+        return d
+
+    def ghost(self, v):
+        k = 'b' if v.old.self.encoding is None else 's'
+        return {'clk': T.Real, 'Kos': T.Bytes, 'peer': T.Int, 'rawin': T.Bytes, 'dec_in': T.Bytes, 'dec_out': TStr(k),
+                'ndec': T.Int, 'empty_seen': T.Bool}
+
+    def modifies(self, v):
+        return []
+
+    def invariant(self, v):
+        sp = v.old.self
+        out = [('peer-state', And(0 <= v.g['peer'], v.g['peer'] <= 2)),
+               ('took-in-order', prefix_of(v.g0['rawin'], v.g['rawin'])),
+               ('no-time-passes', eq(v.g['clk'], v.g0['clk'])),
+               ('collected', eq(v.l.buf, cat(sp._buf, text_delivered(v, sp)))),
+               ('sentinel-not-seen-yet', And(Not(v.l.self._read_reached_eof), Not(sp._read_reached_eof)))]
+        if v.l.has('polled'):
+            out.append(('polled-means-the-queue-was-looked-at', Implies(v.l.polled, length(v.g['rawin']) > length(v.g0['rawin']))))
+        if sp.encoding is not None:
+            out += [('decoder-fed-in-order', And(prefix_of(v.g0['dec_in'], v.g['dec_in']), prefix_of(v.g0['dec_out'], v.g['dec_out']),
+                                                 eq(sub(v.g['dec_in'], length(v.g0['dec_in']), length(v.g['dec_in'])), delivered(v))))]
+        return out
+
+
+class PopenRead(Contract):
+    name = POPEN + '.read_nonblocking'
+    props = ('C05', 'C06', 'C07', 'C11')
+    loops = {0: PopenReadLoop()}
+    standin = False
+
+    def shape(self, b):
+        sp, kind = popen_read_shape(b)
+        return dict(self=sp, size=b.int('size'), timeout=timeout_arg(b))
+
+    def requires(self, v):
+        sp = v.a.self
+        t = v.a.timeout
+        out = env_requires(v) + [('size-positive', v.a.size >= 1), ('class-invariant', popen_inv(sp, v.g))]
+        if t is not None and not (isinstance(t, int) or (is_sym(t) and str(t.sort()) == 'Int')):
+            out.append(('timeout-domain', t >= 0))
+        if sp.timeout is not None:
+            out.append(('instance-timeout-domain', sp.timeout >= 0))
+        return out
+
+    def outcomes(self, v):
+        k = 'b' if v.old.self.encoding is None else 's'
+        return [Ret(TStr(k), 'data'), Raises('EOF')]
+
+    def exits(self, v):
+        return ('EOF',)
+
+    def ensures(self, v):
+        sp, new = v.old.self, v.new.self
+        out = [('class-invariant', popen_inv(new, v.g)), ('peer-state', And(0 <= v.g['peer'], v.g['peer'] <= 2)),
+               ('C05:never-blocks', eq(v.g['clk'], v.g0['clk']))]
+        if v.raised == 'EOF':
+            return out + [('C06:eof-only-after-everything-was-delivered', And(drained_and_gone(v.g), eq(sp._buf, ''))),
+                          ('C06:nothing-taken-and-dropped', eq(v.g['rawin'], v.g0['rawin'])),
+                          ('C04:eof-remembered', eq(new.flag_eof, True))]
+        out += [
+            # C06: what is returned plus what is carried over is exactly the carry-over plus what was taken
+            ('C06:nothing-lost-or-duplicated', eq(cat(v.result, new._buf), cat(sp._buf, text_delivered(v, sp)))),
+            ('C06:at-most-size', length(v.result) <= v.old.size),
+            # C05: timeout=0 (or any timeout) still looks at what is immediately readable
+            ('C05:empty-only-when-nothing-was-readable',
+             Implies(eq(v.result, ''), Or(v.g['empty_seen'], new._read_reached_eof, length(v.g['rawin']) > length(v.g0['rawin'])))),
+        ]
+        if sp.encoding is not None:
+            out.append(('C07:everything-taken-went-through-the-decoder-in-order',
+                        eq(sub(v.g['dec_in'], length(v.g0['dec_in']), length(v.g['dec_in'])), delivered(v))))
+        return out + logs_post(v, sp, 'read', v.result)
+
+
+# ---- SocketSpawn.read_nonblocking ------------------------------------------------------------------------------------
+class SockGetTimeout(Contract):
+    params = ['self']
+
+    def outcomes(self, v):
+        def mk(interp, pre):
+            from pyvc.values import VOpt, VReal, VNone
+            g = pre.g['sock_timeout']
+            if g is None:
+                return VNone()
+            return VReal(g)
+        return [Ret(T.Any, make=mk)]
+
+
+class SockSetTimeout(Contract):
+    params = ['self', 't']
+
+    def effects(self, v):
+        v.g['sock_timeout'] = v.old.t
+        v.g['settimeouts'] = v.g.get('settimeouts', 0) + 1
+
+
+class SockRecv(Contract):
+    """socket.recv(n) under the socket's current timeout t: data; b'' at EOF; socket.timeout after t > 0;
+    BlockingIOError at once when t == 0 and nothing is ready"""
+    params = ['self', 'n']
+
+    def outcomes(self, v):
+        t = v.g['sock_timeout']
+        outs = [Ret(T.Bytes, 'data'), Ret(T.Bytes, 'empty'), Raises('OSError', 'other')]
+        if t is not None:
+            outs += [Raises('socket.timeout', 'timeout'), Raises('BlockingIOError', 'would-block')]
+        return outs
+
+    def effects(self, v):
+        t = v.g['sock_timeout']
+        v.dt = v.draw(T.Real, 'dt')
+        v.g['clk'] = v.g['clk'] + v.dt
+        v.cons = True
+        if v.label == 'data':
+            v.chunk, v.cons = kernel_read(v, v.old.n, 'data')
+        elif v.label == 'empty':
+            _, v.cons = kernel_read(v, v.old.n, 'eof')
+        else:
+            v.cons = env_step(v)
+
+    def ensures(self, v):
+        t = v.g0['sock_timeout']
+        out = [('kernel', v.cons), ('time-forward', v.dt >= 0)]
+        if t is not None:
+            out.append(('bounded', v.dt <= smax(t, 0)))
+        if v.label == 'data':
+            out.append(('chunk', eq(v.result, v.chunk)))
+        if v.label == 'empty':
+            out.append(('empty', eq(v.result, '')))
+        if v.label == 'timeout':
+            out.append(('timed-out', And(t > 0, v.dt >= t, Not(readable(v.g)))))
+        if v.label == 'would-block':
+            out.append(('would-block', And(eq(t, 0), eq(v.dt, 0), Not(readable(v.g)))))
+        return out
+
+
+def sock_read_shape(b):
+    sp, kind = read_shape(b, SOCK)
+    if hasattr(b, 'ctx'):
+        h = b.ctx.heap[sp.oid]
+        h.fields['timeout'] = b.opt('self.timeout', lambda: b.real('self.timeout'))
+        h.fields['flag_eof'] = b.bool('flag_eof')
+    st = b.choice('socket-own-timeout', ['blocking', 'timed'])
+    b.ghost('sock_timeout', None if st == 'blocking' else (b.real('sock_timeout0').t if hasattr(b, 'ctx') else 1.0))
+    b.ghost('settimeouts', 0)
+    return sp, kind
+
+
+class SockRead(Contract):
+    name = SOCK + '.read_nonblocking'
+    props = ('C04', 'C05', 'C06', 'C07', 'C11')
+    standin = False
+
+    def shape(self, b):
+        sp, kind = sock_read_shape(b)
+        return dict(self=sp, size=b.int('size'), timeout=timeout_arg(b))
+
+    def requires(self, v):
+        t = v.a.timeout
+        out = env_requires(v) + [('size-positive', v.a.size >= 1)]
+        if t is not None and not (isinstance(t, int) or (is_sym(t) and str(t.sort()) == 'Int')):
+            out.append(('timeout-domain', t >= 0))
+        if v.a.self.timeout is not None:
+            out.append(('instance-timeout-domain', v.a.self.timeout >= 0))
+        return out
+
+    def outcomes(self, v):
+        k = 'b' if v.old.self.encoding is None else 's'
+        return [Ret(TStr(k), 'data'), Raises('EOF'), Raises('TIMEOUT'), Raises('OSError')]
+
+    def exits(self, v):
+        # C04: "never some other error": only EOF, TIMEOUT, or a genuine I/O error of the socket
+        return ('EOF', 'TIMEOUT', 'OSError')
+
+    def ensures(self, v):
+        sp = v.old.self
+        out = [('C06:socket-timeout-left-as-found', eq(v.g['sock_timeout'], v.g0['sock_timeout']))]
+        if v.raised == 'OSError':
+            return out
+        return out + read_common_post(v, sp) + deadline_post(v, eff_timeout(v))
+
+
 def register(reg):
     reg.add_extern('select.select', SelectSelect)
     reg.add_extern('select.poll', SelectPollNew)
@@ -676,8 +909,18 @@ def register(reg):
     reg.add(PtyRead)
     reg.add(FdRead)
     reg.add(WaitNoEcho)
+    reg.add(PopenRead)
+    reg.add(SockRead)
+    reg.add_iface('iface:socket', 'gettimeout', SockGetTimeout)
+    reg.add_iface('iface:socket', 'settimeout', SockSetTimeout)
+    reg.add_iface('iface:socket', 'recv', SockRecv)
+    reg.add_iface('iface:queue', 'get_nowait', QueueGetNowait)
     reg.add_iface('iface:ptyproc', 'getecho', GetEcho)
     reg.add_extern('os.read', OsReadEnv)
+
+
+
+
 
 
 
